@@ -35,10 +35,10 @@ Section Rename.
     end.
 
   (* graph._deme_map = {deme.name: deme for deme in graph.demes} *)
-  Fixpoint index_from (i : nat) (ds : list deme) (acc : list (string * nat)) : list (string * nat) :=
+  Fixpoint build_index (i : nat) (ds : list deme) (acc : list (string * nat)) : list (string * nat) :=
     match ds with
     | [] => acc
-    | d :: ds' => index_from (S i) ds' (dict_set (d_name d) i acc)
+    | d :: ds' => build_index (S i) ds' (dict_set (d_name d) i acc)
     end.
 
   Definition rename_demes (names : namemap) (g : graph) : graph :=
@@ -46,5 +46,5 @@ Section Rename.
             (map (deme_rename names) (g_demes g))
             (map (mig_rename names) (g_migs g))
             (map (pulse_rename names) (g_pulses g))
-            (index_from 0 (map (deme_rename names) (g_demes g)) []).
+            (build_index 0 (map (deme_rename names) (g_demes g)) []).
 End Rename.
